@@ -67,6 +67,10 @@ def specFrame (n : Nat) (bs : List Nat) : Except String Nat :=
   if len ≠ 8 * n then .error "err:custom" else
   .ok (leVal ((bs.drop 8).take len))
 
+/-- L0 of the serialised form: positional little-endian bytes behind the `u64` length `8n` -/
+def specSerFrame (n x : Nat) : List Nat :=
+  ((List.range 8).map fun i => 8 * n / 256 ^ i % 256) ++ ((List.range (8 * n)).map fun i => x / 256 ^ i % 256)
+
 def intOf (n v : Nat) : Int := if v ≥ B ^ n / 2 then (v : Int) - (B ^ n : Nat) else v
 
 def sel (c : String) : Option Nat := if c = "0" then some 0 else if c = "1" then some WMAX else none
@@ -141,6 +145,41 @@ def fixedOps (op : String) (n : Nat) (args : List String) : Option String :=
       match nzNew a with
       | .ok a => both (resStr (showU pNz) (wrapSame a)) (optNz x "none")
       | _ => both "none" (optNz x "none")
+  -- ---- coverage round: AsRef<T>, AsRef<[Limb]>, Serialize (+ round trip)
+  | "c12.nz.u.as_ref", [v] | "c12.nz.i.as_ref", [v] => u1 v fun a x =>
+      match nzNew a with
+      | .ok a => both (resStr (showU pNz) (wrapAsRef a)) (optNz x "none")
+      | _ => both "none" (optNz x "none")
+  | "c12.odd.u.as_ref", [v] => u1 v fun a x =>
+      match oddNew a with
+      | .ok a => both (resStr (showU pOdd) (wrapAsRef a)) (optOdd x "none")
+      | _ => both "none" (optOdd x "none")
+  | "c12.odd.i.as_ref", [v] => u1 v fun a x =>
+      match uintToOdd a with
+      | .ok a => both (resStr (showU pOdd) (wrapAsRef a)) (optOdd x "none")
+      | _ => both "none" (optOdd x "none")
+  | "c12.odd.u.as_ref_limbs", [v] => u1 v fun a x =>
+      match oddNew a with
+      | .ok a => both (resStr (showB pOdd) (oddAsRefLimbs a)) (optOddB n x "none")
+      | _ => both "none" (optOddB n x "none")
+  | "c12.odd.i.as_ref_limbs", [v] => u1 v fun a x =>
+      match uintToOdd a with
+      | .ok a => both (resStr (showB pOdd) (oddAsRefLimbs a)) (optOddB n x "none")
+      | _ => both "none" (optOddB n x "none")
+  | "c12.nz.u.ser", [v] => u1 v fun a x =>
+      let l0 := if x = 0 then "none" else s!"{bytesToTok (specSerFrame n x)} {natToHex x}"
+      match nzNew a with
+      | .ok a => (match wrapSer a with
+        | .ok bs => both s!"{bytesToTok bs} {resStr (showU pNz) (nzDeser n bs)}" l0
+        | r => both (resStr bytesToTok r) l0)
+      | _ => both "none" l0
+  | "c12.odd.u.ser", [v] => u1 v fun a x =>
+      let l0 := if x % 2 = 0 then "none" else s!"{bytesToTok (specSerFrame n x)} {natToHex x}"
+      match oddNew a with
+      | .ok a => (match wrapSer a with
+        | .ok bs => both s!"{bytesToTok bs} {resStr (showU pOdd) (oddDeser n bs)}" l0
+        | r => both (resStr bytesToTok r) l0)
+      | _ => both "none" l0
   | "c12.nz.i.abs_sign", [v] => u1 v fun a x =>
       let i := intOf n x
       let l0 := if x = 0 then "none" else s!"{natToHex i.natAbs} {if i < 0 then 1 else 0}"
@@ -272,6 +311,25 @@ def limbOps (op : String) (args : List String) : Option String :=
     | some bs => both (sh (nzLimbDeser bs))
         (if bs.length < 8 then "err:decode" else let v := leVal (bs.take 8); if v = 0 then "err:zero" else natToHex v)
     | none => badArgs
+  | "c12.nz.l.as_ref", [v] => l1 v fun x =>
+      match nzLimbNew x with
+      | .ok y => both (sh (wrapLimbAsRef y)) (optNz x "none")
+      | _ => both "none" (optNz x "none")
+  | "c12.odd.l.as_ref", [] =>
+      match oddLimbDefault with
+      | .ok y => both (resStr (showL pOdd) (wrapLimbAsRef y)) "1"
+      | r => both (resStr (showL pOdd) r) "1"
+  | "c12.nz.l.ser", [v] => l1 v fun x =>
+      let l0 := if x = 0 then "none" else s!"{bytesToTok ((List.range 8).map fun i => x / 256 ^ i % 256)} {natToHex x}"
+      match nzLimbNew x with
+      | .ok y => (match wrapLimbSer y with
+        | .ok bs => both s!"{bytesToTok bs} {sh (nzLimbDeser bs)}" l0
+        | r => both (resStr bytesToTok r) l0)
+      | _ => both "none" l0
+  | "c12.odd.l.ser", [] =>
+      match oddLimbDefault with
+      | .ok y => both (resStr bytesToTok (wrapLimbSer y)) (bytesToTok [1, 0, 0, 0, 0, 0, 0, 0])
+      | r => both (resStr (showL pOdd) r) (bytesToTok [1, 0, 0, 0, 0, 0, 0, 0])
   | "c12.nz.l.zeroize", [v] => l1 v fun x =>
       match nzLimbNew x with
       | .ok x => both (sh (nzLimbZeroize x)) "1"
@@ -301,6 +359,18 @@ def boxedOps (op : String) (args : List String) : Option String :=
       match nzBoxedNew a with
       | .ok a => both (resStr (showB pNz) (wrapZeroize a)) (if x = 0 then "none" else s!"{k}:1")
       | _ => both "none" (if x = 0 then "none" else s!"{k}:1")
+  | "c12.nz.b.as_ref", [k, v] => b1 k v fun a k x =>
+      match nzBoxedNew a with
+      | .ok a => both (resStr (showB pNz) (wrapAsRef a)) (optNzB k x "none")
+      | _ => both "none" (optNzB k x "none")
+  | "c12.odd.b.as_ref", [k, v] => b1 k v fun a k x =>
+      match oddNew a with
+      | .ok a => both (resStr (showB pOdd) (wrapAsRef a)) (optOddB k x "none")
+      | _ => both "none" (optOddB k x "none")
+  | "c12.odd.b.as_ref_limbs", [k, v] => b1 k v fun a k x =>
+      match oddNew a with
+      | .ok a => both (resStr (showB pOdd) (oddAsRefLimbs a)) (optOddB k x "none")
+      | _ => both "none" (optOddB k x "none")
   | "c12.odd.b.new", [k, v] | "c12.odd.b.to_odd", [k, v] => b1 k v fun a k x => both (resStr (showB pOdd) (oddNew a)) (optOddB k x "none")
   | "c12.odd.b.default", [] => both (resStr (showB pOdd) oddBoxedDefault) "1:1"
   | "c12.odd.b.random", [bits, s] =>
